@@ -29,7 +29,7 @@ BUDGET = {
     "quick": {"cases": 8400, "seconds": 90, "shards": 8},
     "thorough": {"cases": 300000, "seconds": 900, "shards": 16},
 }
-REQUIRED_OBS = ["predict_after_learn_checked", "relevance_checked", "learn_conservation_checked", "learn_best_model_checked", "learn_swaps_executed", "learn_best_not_last",
+REQUIRED_OBS = ["layout:fortran", "layout:column-slice", "learn_with_precomputed_matrix", "big_validation_case", "predict_after_learn_checked", "relevance_checked", "learn_conservation_checked", "learn_best_model_checked", "learn_swaps_executed", "learn_best_not_last",
                 "prune_refit_checked", "prune_discarded", "first_in_order_conqueror"]
 MIN_NONTRIVIAL = 100
 NIL = -1
@@ -61,8 +61,13 @@ def generate(rng, tier, idx):
     if part == "learn" and rng.random() < 0.1:
         YV = (YV + 1) % (Y.max() + 1)
         YV[0] = int(Y.max())
-    return {"part": part, "metric": name, "X": X.tolist(), "Y": [int(v) for v in Y], "V": V.tolist(), "YV": [int(v) for v in YV],
-            "iters": int(rng.integers(0 if part == "prune" else 1, 11)), "rng_seed": int(rng.integers(0, 2 ** 31 - 1))}
+    case = {"part": part, "metric": name, "X": X.tolist(), "Y": [int(v) for v in Y], "V": V.tolist(), "YV": [int(v) for v in YV],
+            "iters": int(rng.integers(0 if part == "prune" else 1, 11)), "rng_seed": int(rng.integers(0, 2 ** 31 - 1)),
+            "layout": str(rng.choice(["c", "c", "fortran", "column-slice", "row-stride"])), "pre": None}
+    if part == "learn" and rng.random() < 0.15:
+        N = max(n, nv)
+        case["pre"] = {"D": gen.make_matrix(rng, N, gen.pick(rng, ["M1", "M2"])).tolist()}      # learn through a pre-computed matrix
+    return case
 
 
 def check(case):
@@ -163,14 +168,44 @@ def _features_fp(m):
     return [np.asarray(nd.features, dtype=float).tobytes().hex() for nd in m.subgraph.nodes]
 
 
+def _laid_out(A, layout):
+    """The caller's matrix in another memory layout (same values): Fortran order, a column slice of a wider table, every other row."""
+    A = np.array(A, dtype=float)
+    if layout == "fortran":
+        return np.asfortranarray(A)
+    if layout == "column-slice":
+        T = np.hstack([A, np.full((len(A), 2), -7.0)])
+        return T[:, : A.shape[1]]
+    if layout == "row-stride":
+        T = np.empty((2 * len(A), A.shape[1]))
+        T[:] = np.nan
+        T[::2] = A
+        return T[::2]
+    return A
+
+
 def _learn(case, res):
+    import os
+    import shutil
+    import tempfile
+
     import opfython.math.general as g
 
-    X, Y = np.array(case["X"], dtype=float), np.array(case["Y"], dtype=int)
-    V, YV = np.array(case["V"], dtype=float), np.array(case["YV"], dtype=int)
+    X, Y = _laid_out(case["X"], case.get("layout", "c")), np.array(case["Y"], dtype=int)
+    V, YV = _laid_out(case["V"], case.get("layout", "c")), np.array(case["YV"], dtype=int)
+    res.see("layout:" + case.get("layout", "c"))
     before = _multiset(np.vstack([X, V]), np.hstack([Y, YV]))
     train0 = _multiset(X, Y)
-    m = build_model("supervised", case["metric"])
+    if case.get("pre"):
+        tmp = tempfile.mkdtemp(prefix="c17_")
+        try:
+            np.savetxt(os.path.join(tmp, "d.txt"), np.array(case["pre"]["D"], dtype=float))
+            m = build_model("supervised", case["metric"], pre=os.path.join(tmp, "d.txt"))
+        finally:
+            shutil.rmtree(tmp, ignore_errors=True)
+        res.see("learn_with_precomputed_matrix")
+    else:
+        m = build_model("supervised", case["metric"])
     rec = hooks.Recorder()
 
     def after_acc(rec, args, kwargs, result):
@@ -218,7 +253,13 @@ def _learn(case, res):
                     f"the classifier left in the object equals iteration {which}'s" + ("" if which is not None else " (none of the observed iterations)"))
         return res
     # the object must also BEHAVE as that classifier: predictions after learn are judged by the exhaustive scan over its own forest
-    Qv = np.array(case["V"], dtype=float)
+    if case.get("pre"):
+        if accs[-1] != best:
+            res.see("learn_best_not_last")
+        res.nontrivial = swapped and len(iters) >= 2
+        res.cell("learn", "pre", "swapped" if swapped else "noswap")
+        return res
+    Qv = np.array(V, dtype=float)
     pc = safe_call(m.predict, Qv.copy())
     if not pc.ok:
         res.violate("best-model", f"C17/learn/predict-after-learn-raises/{type(pc.exc).__name__}", f"predict on the object left by learn raised at {pc.where}")
@@ -311,3 +352,24 @@ def _prune(case, res):
     res.nontrivial = discarded
     res.cell("prune", "iters" + str(min(case["iters"], 5)), "aborted" if not call.ok else "ok")
     return res
+
+
+def extra(tier, seed, shard=0, nshards=1):
+    """One designed learn run with a LARGE validation set (6000 rows, one of them misclassified at first): successive accuracies
+    (6000 per class) differ by 8.3e-5 < 1e-4, so 'better' must be decided exactly, not up to a convergence tolerance."""
+    if shard != 0:
+        return []
+    rng = np.random.default_rng([seed, 1717])
+    a = rng.normal(size=(4, 2)) * 0.3
+    b = rng.normal(size=(4, 2)) * 0.3 + 8.0
+    X = np.vstack([a, b])
+    Y = [0, 0, 0, 0, 1, 1, 1, 1]
+    nv = 6000
+    V = np.vstack([rng.normal(size=(nv, 2)) * 0.3, rng.normal(size=(nv, 2)) * 0.3 + 8.0])
+    YV = [0] * nv + [1] * nv
+    V[0] = np.array([5.5, 5.5])        # a class-0 validation sample nearer to class 1: the only error; once swapped in, everything is right
+    case = {"part": "learn", "metric": "euclidean", "X": X.tolist(), "Y": Y, "V": V.tolist(), "YV": YV, "iters": 4,
+            "rng_seed": int(seed) % (2 ** 31 - 1), "layout": "c", "pre": None}
+    r = check(case)
+    r.see("big_validation_case")
+    return [(case, r)]
